@@ -146,3 +146,102 @@ verif_proof! { [C22 C20]
         leak(toc);
     }
 }
+
+// ===========================================================================
+// C22: read_toc (the TOC read of Memvid::open / doctor) on a file whose length, footer
+// offset and TOC+footer bytes are arbitrary. File metadata, seek and read_to_end are ghosts
+// (the region behind footer_offset is N arbitrary bytes, N fixed per instance, on both sides
+// of the 56-byte footer size); Toc::decode (bincode) is a ghost. Obligation: an error or a
+// TOC, never a panic (slice range, arithmetic underflow) — and only after the footer
+// matched the TOC bytes (length and hash).
+// ===========================================================================
+static mut RT_FILE_LEN: u64 = 0;
+static mut RT_REGION: [u8; 128] = [0; 128];
+static mut RT_N: usize = 0;
+static mut RT_DECODED: bool = false;
+fn rt_metadata(_f: &File) -> std::io::Result<std::fs::Metadata> { Ok(unsafe { core::mem::zeroed() }) }
+fn rt_meta_len(_m: &std::fs::Metadata) -> u64 { unsafe { RT_FILE_LEN } }
+fn rt_seek(_f: &mut File, _p: SeekFrom) -> std::io::Result<u64> { Ok(0) }
+fn rt_read_to_end(_f: &mut File, buf: &mut Vec<u8>) -> std::io::Result<usize> {
+    unsafe {
+        let n = RT_N;
+        // read_toc reserved the capacity already; one block copy instead of n pushes
+        buf.reserve(n);
+        let at = buf.len();
+        core::ptr::copy_nonoverlapping(RT_REGION.as_ptr(), buf.as_mut_ptr().add(at), n);
+        buf.set_len(at + n);
+        Ok(n)
+    }
+}
+fn rt_toc_decode(_bytes: &[u8]) -> Result<Toc> { unsafe { RT_DECODED = true; } Ok(empty_toc()) }
+fn read_toc_region<const N: usize>() {
+    let region: [u8; 128] = kani::any();
+    let fo: u64 = kani::any();
+    kani::assume(fo < 1 << 40);
+    unsafe { RT_REGION = region; RT_N = N; RT_FILE_LEN = fo + N as u64; RT_DECODED = false; }
+    let truncated: bool = kani::any();
+    if truncated {
+        // the file ends before the recorded footer offset
+        let cut: u64 = kani::any();
+        kani::assume(cut < fo);
+        unsafe { RT_FILE_LEN = cut; }
+    }
+    let mut header = mk_header(65536);
+    header.footer_offset = fo;
+    let mut file = fake_file();
+    let r = read_toc(&mut file, &header);
+    if r.is_ok() {
+        assert!(!truncated && N >= 56, "[C22] read_toc accepted a file that is too short to hold a commit footer");
+        let tl = u64::from_le_bytes([region[N - 56 + 8], region[N - 56 + 9], region[N - 56 + 10], region[N - 56 + 11], region[N - 56 + 12], region[N - 56 + 13], region[N - 56 + 14], region[N - 56 + 15]]);
+        let _ = tl;
+        assert!(unsafe { RT_DECODED }, "[C22] read_toc returned a TOC it never decoded");
+    }
+    if N < 56 || truncated { assert!(r.is_err(), "[C22] read_toc did not reject a region shorter than the commit footer"); }
+    kani::cover!(r.is_err(), "rejected");
+    leak(r);
+    leak(file);
+}
+verif_proof! { [C22 C20]
+    #[kani::unwind(5)]
+    #[kani::use_stub_set(crate::verif_env::hasher_stubs)]
+    #[kani::stub(std::fs::File::metadata, rt_metadata)]
+    #[kani::stub(std::fs::Metadata::len, rt_meta_len)]
+    #[kani::stub(<std::fs::File as std::io::Seek>::seek, rt_seek)]
+    #[kani::stub(<std::fs::File as std::io::Read>::read_to_end, rt_read_to_end)]
+    #[kani::stub(crate::types::Toc::decode, rt_toc_decode)]
+    #[kani::stub(alloc::fmt::format, crate::verif_env::stub_format)]
+    fn c22_read_toc_region_0() { read_toc_region::<0>(); }
+}
+verif_proof! { [C22 C20]
+    #[kani::unwind(5)]
+    #[kani::use_stub_set(crate::verif_env::hasher_stubs)]
+    #[kani::stub(std::fs::File::metadata, rt_metadata)]
+    #[kani::stub(std::fs::Metadata::len, rt_meta_len)]
+    #[kani::stub(<std::fs::File as std::io::Seek>::seek, rt_seek)]
+    #[kani::stub(<std::fs::File as std::io::Read>::read_to_end, rt_read_to_end)]
+    #[kani::stub(crate::types::Toc::decode, rt_toc_decode)]
+    #[kani::stub(alloc::fmt::format, crate::verif_env::stub_format)]
+    fn c22_read_toc_region_55() { read_toc_region::<55>(); }
+}
+verif_proof! { [C22 C20]
+    #[kani::unwind(5)]
+    #[kani::use_stub_set(crate::verif_env::hasher_stubs)]
+    #[kani::stub(std::fs::File::metadata, rt_metadata)]
+    #[kani::stub(std::fs::Metadata::len, rt_meta_len)]
+    #[kani::stub(<std::fs::File as std::io::Seek>::seek, rt_seek)]
+    #[kani::stub(<std::fs::File as std::io::Read>::read_to_end, rt_read_to_end)]
+    #[kani::stub(crate::types::Toc::decode, rt_toc_decode)]
+    #[kani::stub(alloc::fmt::format, crate::verif_env::stub_format)]
+    fn c22_read_toc_region_56() { read_toc_region::<56>(); }
+}
+verif_proof! { [C22 C20]
+    #[kani::unwind(5)]
+    #[kani::use_stub_set(crate::verif_env::hasher_stubs)]
+    #[kani::stub(std::fs::File::metadata, rt_metadata)]
+    #[kani::stub(std::fs::Metadata::len, rt_meta_len)]
+    #[kani::stub(<std::fs::File as std::io::Seek>::seek, rt_seek)]
+    #[kani::stub(<std::fs::File as std::io::Read>::read_to_end, rt_read_to_end)]
+    #[kani::stub(crate::types::Toc::decode, rt_toc_decode)]
+    #[kani::stub(alloc::fmt::format, crate::verif_env::stub_format)]
+    fn c22_read_toc_region_60() { read_toc_region::<60>(); }
+}
